@@ -424,4 +424,13 @@ theorem parseItems_render (items : List Item) (h : ∀ it ∈ items, it.wf) (hne
         rw [ih hr (by simp) fuel (by simpa using hf)]
         rfl
 
+theorem dimTable_le (m : Nat) : dimTable m ≤ 31 := by
+  unfold dimTable
+  cases Nat.beq m 2 <;> cases (Nat.beq m 4 || Nat.beq m 6 || Nat.beq m 9 || Nat.beq m 11) <;> simp
+theorem dimL_le (leap : Bool) (m : Nat) : dimL leap m ≤ 31 := by
+  unfold dimL
+  cases (Nat.beq m 2 && leap)
+  · simpa using dimTable_le m
+  · simp
+
 end Cel.Time
